@@ -758,6 +758,8 @@ func c15(c *h.Ctx) {
 		c15StalledPeer(c, server)
 	}
 	c15CloseWays(c)
+	c15DeadlineDuringControl(c, true)
+	c15DeadlineDuringControl(c, false)
 	kinds := []string{"ping", "pong", "close", "xclose", "xclose-partial"}
 	run := 0
 	for _, server := range []bool{true, false} {
@@ -935,4 +937,75 @@ func c15CloseWays(c *h.Ctx) {
 			}
 		}
 	}
+}
+
+// c15DeadlineDuringControl: over a transport that honours deadlines for writes already in progress (net.Pipe, like
+// TCP): a ping sent with a generous deadline is stuck in the transport because the peer reads slowly; meanwhile the
+// data-writing goroutine calls SetWriteDeadline with a short deadline for ITS next message. That deadline is the data
+// writer's: the control frame in progress is not cut, it arrives whole, and the data message after it is intact.
+func c15DeadlineDuringControl(c *h.Ctx, server bool) {
+	in := fmt.Sprintf("wsconc role=%s over net.Pipe: WriteControl(Ping, 5s) stuck after the peer took 1 byte; SetWriteDeadline(now+40ms) by the data writer; 150 ms later the peer reads on; WriteMessage", roleStr(server))
+	a, b := net.Pipe()
+	defer a.Close()
+	defer b.Close()
+	conn := ws.VerifNewConn(a, server, 0, c15B, false)
+	pingDone := make(chan error, 1)
+	go func() {
+		defer func() {
+			if p := recover(); p != nil {
+				pingDone <- fmt.Errorf("panic: %v", p)
+			}
+		}()
+		pingDone <- conn.WriteControl(ws.PingMessage, []byte("0123456789"), time.Now().Add(5*time.Second))
+	}()
+	one := make([]byte, 1)
+	b.SetReadDeadline(time.Now().Add(3 * time.Second))
+	if _, err := io.ReadFull(b, one); err != nil {
+		c.Note("C15 deadline-during-control scenario could not be established: " + err.Error())
+		return
+	}
+	conn.SetWriteDeadline(time.Now().Add(40 * time.Millisecond))
+	time.Sleep(150 * time.Millisecond)
+	// the peer reads on: the rest of the ping, then the data message
+	got := append([]byte(nil), one...)
+	readAll := make(chan struct{})
+	go func() {
+		defer close(readAll)
+		buf := make([]byte, 4096)
+		for {
+			b.SetReadDeadline(time.Now().Add(700 * time.Millisecond))
+			n, err := b.Read(buf)
+			got = append(got, buf[:n]...)
+			if err != nil {
+				return
+			}
+		}
+	}()
+	var errPing error
+	select {
+	case errPing = <-pingDone:
+	case <-time.After(3 * time.Second):
+		errPing = fmt.Errorf("WriteControl did not return")
+	}
+	data := c15DataPayload(60)
+	conn.SetWriteDeadline(time.Now().Add(2 * time.Second))
+	errData := conn.WriteMessage(ws.BinaryMessage, data)
+	<-readAll
+	rep := c.O.Call("ws.parse", roleStr(server), "0", h.Hex(got))
+	okWire := strings.HasPrefix(rep, "ok ")
+	var payload []byte
+	pings := 0
+	if okWire {
+		for _, f := range wsParseFrames(rep[3:]) {
+			if f.Op == 9 && h.Hex(h.UnHex(f.Payload)) == h.Hex([]byte("0123456789")) {
+				pings++
+			}
+			if f.Op == 2 || f.Op == 0 {
+				payload = append(payload, h.UnHex(f.Payload)...)
+			}
+		}
+	}
+	c.Hold(errPing == nil && errData == nil && okWire && pings == 1 && bytes.Equal(payload, data), "C15_wire.deadline_set_during_a_control_frame", in,
+		fmt.Sprintf("ping: %v; data: %v; wire: %s", errPing, errData, h.Trunc(rep, 200)), "both nil; one whole ping and the data message on the wire")
+	c.Case("deadline-during-control/"+roleStr(server), in, true)
 }
